@@ -377,7 +377,7 @@ class Subotnik2D(DiabaticModel_):
         self.f = float(f)
         self.g = float(g)
         self.w = float(w)
-        self.mass = np.array(mass, dtype=np.float64).reshape(self.ndim())
+        self.mass = np.broadcast_to(np.array(mass, dtype=np.float64), (self.ndim(),)).copy()
 
     def V(self, r: ArrayLike) -> ArrayLike:
         """:math:`V(x)`"""
@@ -410,7 +410,7 @@ class Subotnik2D(DiabaticModel_):
 
         out = np.array([vx, vy], dtype=np.float64)
 
-        return out.reshape([2, 3, 3])
+        return out.reshape([2, 2, 2])
 
 
 class ShinMetiu(AdiabaticModel_):
